@@ -546,4 +546,201 @@ example : LikOK .identity ⟨1, 0⟩ [0, 2] := by
     have : derivRaw .identity (⟨1, 0⟩ : Par ℝ) x = 1 := by simp only [derivRaw]; norm_num
     rw [this]; norm_num
 
+/-! ### C18_fit — `Normalizer.fit(data, skip)` for an ARBITRARY optimiser
+
+  The optimiser is a parameter: `run : OptRun α` is any sequence of trial points handed to the objective and any
+  result vector `x` (so the statements hold for `minimize_scalar`, `minimize`, every `method=` and also for a
+  failing optimiser).  The bookkeeping theorems are law-free (any carrier, also `Float`), for arbitrary
+  parameter names (`defaults` = keys of `default_parameter` of any subclass) and arbitrary `skip`. -/
+
+section Fit
+variable {α : Type} [Arith α]
+
+/-- names that are skipped (or are no parameter at all) are never written: neither by the objective
+    evaluations nor by the final write-back — bit-identical, whatever the optimiser does -/
+theorem fit_skipped_untouched (defaults skip : List String) (s : Attrs α) (ub : Option (α × α))
+    (ux : Option (List α)) (run : OptRun α) (n : String) (h : n ∈ skip ∨ n ∉ defaults) :
+    (fit defaults s skip ub ux run).attrs n = s n ∧
+    ∀ a ∈ (fit defaults s skip ub ux run).seen, a n = s n := by
+  have hn : n ∉ paraNames (sortNames defaults) skip := by
+    rw [mem_paraNames, mem_sortNames]
+    rcases h with h | h
+    · exact fun hc => hc.2 h
+    · exact fun hc => h hc.1
+  by_cases he : paraNames (sortNames defaults) skip = []
+  · rw [fit_of_nil defaults skip s ub ux run he]
+    exact ⟨rfl, fun a ha => absurd ha List.not_mem_nil⟩
+  · rw [fit_of_ne_nil defaults skip s ub ux run he]
+    refine ⟨?_, seenStates_of_not_mem s _ _ hn⟩
+    show writeBack (afterTrials s _ run.trials) _ run.x n = s n
+    rw [writeBack_of_not_mem _ _ _ hn, afterTrials_of_not_mem _ _ _ hn]
+
+/-- the returned dictionary is the object's parameters by (sorted) name -/
+theorem fit_ret_eq_object (defaults skip : List String) (s : Attrs α) (ub : Option (α × α))
+    (ux : Option (List α)) (run : OptRun α) (hfree : paraNames (sortNames defaults) skip ≠ []) :
+    (fit defaults s skip ub ux run).ret
+      = (sortNames defaults).map fun n => (n, (fit defaults s skip ub ux run).attrs n) := by
+  rw [fit_of_ne_nil defaults skip s ub ux run hfree]
+
+/-- … its keys are all parameter names, each once, and every value is the object's -/
+theorem fit_ret_spec (defaults skip : List String) (s : Attrs α) (ub : Option (α × α))
+    (ux : Option (List α)) (run : OptRun α) (hfree : paraNames (sortNames defaults) skip ≠ []) :
+    ((fit defaults s skip ub ux run).ret.map Prod.fst).Perm defaults ∧
+    ∀ nv ∈ (fit defaults s skip ub ux run).ret, nv.2 = (fit defaults s skip ub ux run).attrs nv.1 := by
+  rw [fit_ret_eq_object defaults skip s ub ux run hfree]
+  refine ⟨?_, ?_⟩
+  · rw [List.map_map]
+    have : (Prod.fst ∘ fun n => (n, (fit defaults s skip ub ux run).attrs n)) = id := rfl
+    rw [this, List.map_id]; exact sortNames_perm defaults
+  · intro nv hnv
+    obtain ⟨n, _, rfl⟩ := List.mem_map.mp hnv
+    rfl
+
+/-- every free parameter receives its component of the optimiser's result `x` (not a trial value, not a
+    component belonging to another name) -/
+theorem fit_free_written (defaults skip : List String) (s : Attrs α) (ub : Option (α × α))
+    (ux : Option (List α)) (run : OptRun α) (hnd : defaults.Nodup)
+    (hlen : run.x.length = (paraNames (sortNames defaults) skip).length)
+    (i : Nat) (hi : i < (paraNames (sortNames defaults) skip).length) :
+    (fit defaults s skip ub ux run).attrs (paraNames (sortNames defaults) skip)[i] = run.x[i]'(hlen ▸ hi) := by
+  have hfree : paraNames (sortNames defaults) skip ≠ [] := by
+    intro he; rw [he] at hi; exact Nat.not_lt_zero _ hi
+  rw [fit_of_ne_nil defaults skip s ub ux run hfree]
+  exact writeBack_get _ _ _ (paraNames_nodup hnd) hlen i hi
+
+/-- nothing to fit (every parameter skipped, or a class without parameters): the object is unchanged, `{}` is
+    returned with the warning, the optimiser is not called -/
+theorem fit_none_free (defaults skip : List String) (s : Attrs α) (ub : Option (α × α))
+    (ux : Option (List α)) (run : OptRun α) (h : ∀ n ∈ defaults, n ∈ skip) :
+    (fit defaults s skip ub ux run).attrs = s ∧ (fit defaults s skip ub ux run).ret = [] ∧
+    (fit defaults s skip ub ux run).warned = true ∧ (fit defaults s skip ub ux run).route = 0 ∧
+    (fit defaults s skip ub ux run).seen = [] := by
+  have he : paraNames (sortNames defaults) skip = [] := by
+    apply List.eq_nil_iff_forall_not_mem.mpr
+    intro n hn
+    have := mem_paraNames.mp hn
+    exact this.2 (h n (mem_sortNames.mp this.1))
+  rw [fit_of_nil defaults skip s ub ux run he]
+  exact ⟨rfl, rfl, rfl, rfl, rfl⟩
+
+/-- which scipy routine is used and with which defaults: one free parameter → `minimize_scalar` with the
+    caller's bracket or `(-2, 2)`; several → `minimize` started at the caller's `x0` or at the current values
+    of the FREE parameters -/
+theorem fit_route (defaults skip : List String) (s : Attrs α) (ub : Option (α × α))
+    (ux : Option (List α)) (run : OptRun α) (hfree : paraNames (sortNames defaults) skip ≠ []) :
+    let r := fit defaults s skip ub ux run
+    let free := paraNames (sortNames defaults) skip
+    r.warned = false ∧
+    (free.length = 1 → r.route = 1 ∧ r.x0 = none ∧ r.bracket = some (ub.getD (-((2:Nat):α), ((2:Nat):α)))) ∧
+    (free.length ≠ 1 → r.route = 2 ∧ r.bracket = none ∧ r.x0 = some (ux.getD (free.map s))) := by
+  intro r free
+  simp only [r, free]
+  rw [fit_of_ne_nil defaults skip s ub ux run hfree]
+  refine ⟨rfl, fun h1 => ?_, fun h1 => ?_⟩
+  · simp only [h1, if_true]; exact ⟨trivial, trivial, trivial⟩
+  · simp only [h1, if_false]; exact ⟨trivial, trivial, trivial⟩
+
+end Fit
+
+/-- If the optimiser returns a minimiser of the objective it was handed (over all vectors of the right
+    length), then the object ends up at parameters that minimise `J` over ALL parameter settings that agree
+    with the start on the non-fitted names — for any function `J` of the object's parameters. -/
+theorem fit_optimal (defaults skip : List String) (s : Attrs ℝ) (ub : Option (ℝ × ℝ)) (ux : Option (List ℝ))
+    (run : OptRun ℝ) (J : Attrs ℝ → ℝ)
+    (hx : run.x.length = (paraNames (sortNames defaults) skip).length)
+    (hopt : ∀ t : List ℝ, t.length = (paraNames (sortNames defaults) skip).length →
+      objective J s (paraNames (sortNames defaults) skip) run.x
+        ≤ objective J s (paraNames (sortNames defaults) skip) t)
+    (hfree : paraNames (sortNames defaults) skip ≠ [])
+    (b : Attrs ℝ) (hb : ∀ n, n ∉ paraNames (sortNames defaults) skip → b n = s n) :
+    J (fit defaults s skip ub ux run).attrs ≤ J b := by
+  have hattrs : (fit defaults s skip ub ux run).attrs
+      = writeBack s (paraNames (sortNames defaults) skip) run.x := by
+    rw [fit_of_ne_nil defaults skip s ub ux run hfree]
+    exact writeBack_congr _ _ _ _ (le_of_eq hx.symm) (fun m hm => afterTrials_of_not_mem _ _ _ hm)
+  have hbeq : b = writeBack s (paraNames (sortNames defaults) skip)
+      ((paraNames (sortNames defaults) skip).map b) := by
+    funext m
+    by_cases hm : m ∈ paraNames (sortNames defaults) skip
+    · rw [writeBack_map _ _ _ hm]
+    · rw [writeBack_of_not_mem _ _ _ hm, hb m hm]
+  rw [hattrs, hbeq]
+  exact hopt _ (List.length_map _)
+
+/-- **Fitted parameters agree with the maximum-likelihood definition** (given a correct optimiser): for class
+    `k` and data `d`, if the optimiser's `x` minimises `-kernel_loglikelihood` over the free parameters, then no
+    parameter value `p'` that keeps the skipped parameters has a larger (kernel, hence by `kernel_loglik` also
+    full) log-likelihood than the fitted object.  With `loglik_profile_max` this is maximality of the Gaussian
+    likelihood of the transformed data over the free normalizer parameters AND `(μ, σ²)`. -/
+theorem fit_is_mle (k : Kind) (data : List ℝ) (skip : List String) (s : Attrs ℝ) (ub : Option (ℝ × ℝ))
+    (ux : Option (List ℝ)) (run : OptRun ℝ)
+    (hx : run.x.length = (paraNames (sortNames (paramNames k)) skip).length)
+    (hopt : ∀ t : List ℝ, t.length = (paraNames (sortNames (paramNames k)) skip).length →
+      objective (negKLL k data) s (paraNames (sortNames (paramNames k)) skip) run.x
+        ≤ objective (negKLL k data) s (paraNames (sortNames (paramNames k)) skip) t)
+    (hfree : paraNames (sortNames (paramNames k)) skip ≠ [])
+    (p' : Par ℝ)
+    (hl : "lmbda" ∉ paraNames (sortNames (paramNames k)) skip → p'.lmbda = s "lmbda")
+    (hs : "shift" ∉ paraNames (sortNames (paramNames k)) skip → p'.shift = s "shift") :
+    kernelLL k p' data ≤ kernelLL k (parOf (fit (paramNames k) s skip ub ux run).attrs) data := by
+  let b : Attrs ℝ := fun n => if n = "lmbda" then p'.lmbda else if n = "shift" then p'.shift else s n
+  have hb : ∀ n, n ∉ paraNames (sortNames (paramNames k)) skip → b n = s n := by
+    intro n hn
+    by_cases h1 : n = "lmbda"
+    · subst h1; simp only [b, if_true]; exact hl hn
+    · by_cases h2 : n = "shift"
+      · subst h2; simp only [b, h1, if_false, if_true]; exact hs hn
+      · simp only [b, h1, h2, if_false]
+  have hpar : parOf b = p' := by
+    have : ("shift" : String) ≠ "lmbda" := by decide
+    simp only [parOf, b, if_true, this, if_false]
+  have := fit_optimal (paramNames k) skip s ub ux run (negKLL k data) hx hopt hfree b hb
+  simp only [negKLL, hpar] at this
+  exact neg_le_neg_iff.mp this
+
+/-- the same for the full log-likelihood when both parameter values keep the same number of data in range -/
+theorem fit_is_mle_loglik (k : Kind) (data : List ℝ) (skip : List String) (s : Attrs ℝ) (ub : Option (ℝ × ℝ))
+    (ux : Option (List ℝ)) (run : OptRun ℝ)
+    (hx : run.x.length = (paraNames (sortNames (paramNames k)) skip).length)
+    (hopt : ∀ t : List ℝ, t.length = (paraNames (sortNames (paramNames k)) skip).length →
+      objective (negKLL k data) s (paraNames (sortNames (paramNames k)) skip) run.x
+        ≤ objective (negKLL k data) s (paraNames (sortNames (paramNames k)) skip) t)
+    (hfree : paraNames (sortNames (paramNames k)) skip ≠ [])
+    (p' : Par ℝ)
+    (hl : "lmbda" ∉ paraNames (sortNames (paramNames k)) skip → p'.lmbda = s "lmbda")
+    (hs : "shift" ∉ paraNames (sortNames (paramNames k)) skip → p'.shift = s "shift")
+    (hn : (checked k p' data).length
+        = (checked k (parOf (fit (paramNames k) s skip ub ux run).attrs) data).length) :
+    logLik k p' data ≤ logLik k (parOf (fit (paramNames k) s skip ub ux run).attrs) data := by
+  have h := fit_is_mle k data skip s ub ux run hx hopt hfree p' hl hs
+  unfold logLik
+  rw [kernel_loglik, kernel_loglik, hn]
+  unfold kernelLL at h
+  linarith
+
+/-- the hypotheses are satisfiable and the statements not vacuous: `BoxCoxShift` (declared order `shift`, `lmbda`)
+    with `lmbda` skipped and an optimiser that tries `7` and returns `3`: the shift becomes `3`, `lmbda` stays,
+    the dictionary lists both in sorted order -/
+example :
+    let s : Attrs ℝ := initAttrs [("shift", 0), ("lmbda", 1)] [("lmbda", 0.5)]
+    let r := fit (paramNames .boxCoxShift) s ["lmbda"] none none ⟨[[7]], [3]⟩
+    r.attrs "shift" = 3 ∧ r.attrs "lmbda" = 0.5 ∧ r.ret = [("lmbda", 0.5), ("shift", 3)] ∧ r.route = 1 := by
+  have e1 : ("shift" : String) ≠ "lmbda" := by decide
+  have e2 : ("lmbda" : String) ≠ "shift" := by decide
+  have e3 : ("lmbda" : String) < "shift" := by decide
+  simp [fit, paramNames, sortNames, insertName, paraNames, afterTrials, writeBack, setAttr, initAttrs, e1, e2, e3,
+    List.lookup]
+
+/-- the optimality hypothesis of `fit_optimal` / `fit_is_mle` is satisfiable: for `J = (lmbda - 3)²` a run that
+    returns `x = [3]` minimises the objective over all one-element vectors -/
+example : ∀ t : List ℝ, t.length = (paraNames (sortNames ["lmbda"]) []).length →
+    objective (fun a : Attrs ℝ => (a "lmbda" - 3) ^ 2) (fun _ => 1) (paraNames (sortNames ["lmbda"]) []) [3]
+      ≤ objective (fun a : Attrs ℝ => (a "lmbda" - 3) ^ 2) (fun _ => 1) (paraNames (sortNames ["lmbda"]) []) t := by
+  intro t ht
+  match t, ht with
+  | [v], _ =>
+    simp only [objective, paraNames, sortNames, insertName, List.foldr, List.filter, List.contains, List.elem,
+      Bool.not_false, writeBack, List.zip_cons_cons, List.zip_nil_right, List.foldl, setAttr, if_true]
+    nlinarith [sq_nonneg (v - 3)]
+
 end GSV.Props.C18
